@@ -355,6 +355,30 @@ Definition step (s : state) (e : event) : state :=
 
 Definition run (evs : list event) : state := fold_left step evs init.
 
+(** ------------------------------------------------------------------------------------------------ the code BEFORE fixes/C30.diff
+    update_from_gh_json kept review_state and last_known_github_status across a head change.  Only used to show that
+    the property fails without the fix ([C30_unfixed_refuted]). *)
+
+Definition from_gh_unfixed (g : gpr) (old : option cpr) : cpr :=
+  match old with
+  | Some c =>
+      if c_src c =? g_head g
+      then mkC (c_num c) (c_src c) (c_review c) (c_rv_for c) (g_labels g) (c_sts c) (c_batch c) (c_build c)
+      else mkC (c_num c) (g_head g) (c_review c) (c_rv_for c) (g_labels g) (c_sts c) None None
+  | None => mkC (g_num g) (g_head g) None (g_head g) (g_labels g) [] None None
+  end.
+
+Definition do_fetch_unfixed (k : option nat) (s : state) : state :=
+  let opens := filter g_open (gprs s) in
+  let listed := map (fun g => from_gh_unfixed g (find (fun c => c_num c =? g_num g) (cprs s))) opens in
+  let n := match k with Some k' => k' | None => length listed end in
+  mkSt (next_sha s) (g_target s) (gprs s) (batches s) (Some (g_target s)) (refresh_first n opens listed) (merges s).
+
+Definition step_unfixed (s : state) (e : event) : state :=
+  match e with Fetch k => do_fetch_unfixed k s | _ => step s e end.
+
+Definition run_unfixed (evs : list event) : state := fold_left step_unfixed evs init.
+
 (** ------------------------------------------------------------------------------------------------ the property *)
 
 Definition fresh_sts (src : nat) (l : list sentry) : Prop := Forall (fun e => s_st e = SSuccess /\ s_for e = src) l.
